@@ -26,6 +26,9 @@ built = {
  'C15': dict(cat='model_checking', ref='DESIGN.md §4 C15', tech='explicit-state reachability over abstract VM states (pc, stack depths, context-state kinds, bounded GOSUB stack) of every generated instruction list, with error edges, plus instruction-level conformance of real VM runs against the abstract graph',
    text='For every accepted program of the enumerated groups the instruction list is checked statically (targets resolved and inside the list, labels defined once, branches inside their procedure, Halt/PopRet at the ends, ascending statement addresses) and by breadth-first reachability over abstract states per procedure (no underflow, unique depth vector at every pc, balance at exits; with error edges into handlers for programs using ON ERROR); programs without handlers are also executed on the real VM and every executed instruction must occur in one of its abstract states.',
    note='Stack effects of the 70 instructions are transcribed from the VM handlers (DESIGN.md A.1); calls are summarised as balanced and each procedure analysed on its own; error edges are not drawn from block-statement headers (R6).'),
+ 'C17': dict(cat='exploration', ref='DESIGN.md §4 C17', tech=T_ENUM,
+   text='All strings up to length 4/5 over {a,B,blank} x all counts and positions in -1..7 for LEFT$, RIGHT$, MID$, INSTR (haystacks and needles over {a,B} up to length 4-6 / 3), the case and trim functions, SPACE$, STRING$, LEN(a+b), VAL(STR$(k)) for the INTEGER range; literal, variable and nested argument forms; definitional results from the reference semantics and the stated equations evaluated by the implementation itself.',
+   note='7-bit ASCII (R8); INSTR with an empty needle not judged.'),
  'C19': dict(cat='exploration', ref='DESIGN.md §4 C19', tech=T_ENUM,
    text='Bounded-exhaustive enumeration on the real functions (qb_and/qb_or on all 65536 x 79-lattice pairs, i32_to_bytes/bytes_to_i32 on all 65536 values, f64_to_bytes/bytes_to_f64 on every biased exponent x mantissa lattice x sign) and on the real interpreter (AND/OR/NOT via PRINT, PEEK/POKE via VARPTR, MKD$/CVD through RANDOM-file records), each compared with the machine operations.',
    note='Oracle = Rust i16 bit operations and f64::to_le_bytes; doubles restricted to a mantissa lattice; strings with bytes >= 128 only observed through RANDOM files (R8).'),
